@@ -59,7 +59,8 @@ Loss == /\ Is("Loss") /\ l' = l + 1
         /\ Ev.nonneg /\ Ev.local                                                        \* non-negative; unchanged by the other samples of the batch
 \* every registered function prototype at dims 1..32 on real-valued points: the driver's oracles (central differences along a random
 \* direction for smooth functions, the convexity inequality with a relative tolerance) - environment predicates
-Generic == /\ Is("Generic") /\ l' = l + 1 /\ Ev.valueOnlySame /\ (Ev.smooth => Ev.gradOK) /\ (Ev.convex => Ev.convexOK)
+\* (non-smooth prototypes: the subgradient is the derivative wherever the one-sided difference quotients agree)
+Generic == /\ Is("Generic") /\ l' = l + 1 /\ Ev.valueOnlySame /\ ((Ev.smooth \/ Ev.differentiable) => Ev.gradOK) /\ (Ev.convex => Ev.convexOK)
 Next == Stencil \/ Convex \/ Loss \/ Generic
 Init == l = 1
 Spec == Init /\ [][Next]_l
